@@ -78,7 +78,15 @@ pub fn run(args: &Args) {
         "(L (el 116.101.120.116.97.114.101.97 (A (115.112.101.108.108.99.104.101.99.107 (b 0))) (C)) (el 100 (A (97.114.105.97.45.104.105.100.100.101.110 (b 1)) (100.114.97.103.103.97.98.108.101 (b 0))) (C (dtext 0))))",
         "(L (el 100 (A (99.111.110.116.101.110.116.101.100.105.116.97.98.108.101 (b 0)) (97.114.105.97.45.98.117.115.121 (b 1))) (C (dview 0 (alt (el 112 (A (115.112.101.108.108.99.104.101.99.107 (b 1))) (C))) (alt (text 120))))))",
     ];
-    for f in fam_ba.iter().chain(fam_sn.iter()).chain(fam_cl.iter()).chain(fam_ns.iter()).chain(fam_k.iter()).chain(fam_nh.iter()).chain(fam.iter()) {
+    // children built before the static frame that holds them (a component that evaluates its children and wraps them in a
+    // NoHydrate region): keyed elements under a keyless one, adopted and reactive
+    let fam_pre: Vec<&str> = vec![
+        "(L (el 100 (A) (C (prenh 115.101.99.116.105.111.110 (el 98 (A (99 (d 0))) (C (dtext 0)))) (el 112 (A) (C (text 97) (dtext 1))))))",
+        "(L (prenh 115.101.99.116.105.111.110 (el 98 (A) (C (dview 0 (alt (text 97)) (alt (el 105 (A) (C)))))) (el 117 (A (104 (b 1))) (C))) (el 112 (A) (C (dtext 0))))",
+        "(L (el 100 (A) (C (nohydrate (el 104 (A) (C (text 115)))) (prenh 97.115.105.100.101 (el 98 (A) (C (dtext 1)))) (dtext 0))))",
+        "(L (dview 1 (alt (prenh 115.101.99.116.105.111.110 (el 98 (A) (C (dtext 0))))) (alt (el 120 (A) (C)))) (el 112 (A) (C (dtext 0))))",
+    ];
+    for f in fam_pre.iter().chain(fam_ba.iter()).chain(fam_sn.iter()).chain(fam_cl.iter()).chain(fam_ns.iter()).chain(fam_k.iter()).chain(fam_nh.iter()).chain(fam.iter()) {
         let Some(Sx::L(l)) = sx_parse(f) else { continue };
         let vds: Vec<VD> = l[1..].iter().map(|s| rd(s).unwrap()).collect();
         for (st, ws) in [(vec![0u32, 0], "0=1,1=1,0=2,1=2"), (vec![1, 1], "1=2,0=0,0=1,1=3"), (vec![3, 2], "0=3,0=4,1=5"), (vec![4, 1], "0=5,0=2,1=2,0=0")] { push(&vds, &st, ws); }
